@@ -27,6 +27,9 @@ type Driver struct {
 	AtQuiescence func(parked []*Parked, s Snapshot)
 	// Weight lets a scenario bias the choice (default 1).
 	Weight func(c Choice) int
+	// OnRelease, if set, is called with the gate's name just before a parked goroutine is released (so that a harness
+	// can record "the goroutine passes this point now" - the arrival at a gate is reported by Controller.OnEvent).
+	OnRelease func(point string)
 }
 
 // Run drives until no choice is left (returns nil), the step budget is exhausted or quiescence fails.
@@ -78,6 +81,9 @@ func (d *Driver) Run() error {
 		c := choices[pick]
 		d.Log = append(d.Log, c.Name)
 		if c.Kind == "release" {
+			if d.OnRelease != nil {
+				d.OnRelease(c.P.Point)
+			}
 			d.C.Release(c.P)
 		} else {
 			c.Do()
